@@ -33,8 +33,10 @@ PEEKS = {
     "src/collection.rs": "peek/collection.rs",
     "src/poisonable.rs": "peek/poisonable.rs",
 }
-T2_FROM = "&raw const **lock"
-T2_TO = "(&raw const **lock).cast::<()>() as usize"
+# T2: `&raw const **<ident>` (a fat `*const dyn RawLock` used as sort key) -> thin address as usize; any identifier,
+# so that a renamed closure parameter or a sort_by(|a, b| ..) spelling is still rewritten (not already-cast sites)
+T2_RE = re.compile(r"&raw const \*\*([A-Za-z_][A-Za-z0-9_]*)\b(?!\s*\)\s*\.cast)")
+T2_TO = r"((&raw const **\1).cast::<()>() as usize)"
 
 
 def log(*a):
@@ -91,9 +93,8 @@ def extract(scratch, gen_dialect=True, contracts=False):
     p = os.path.join(crate, "src/collection/utils.rs")
     if os.path.exists(p):
         text = open(p).read()
-        n = text.count(T2_FROM)
+        text, n = T2_RE.subn(T2_TO, text)
         if n:
-            text = text.replace(T2_FROM, T2_TO)
             open(p, "w").write(text)
         stats["T2_rewrites"] = n
         if n:
